@@ -10,7 +10,9 @@
        into_bytes and get_public_key for every private key that deserialisation accepted,
        into_bytes for every deserialised public key (from the C04/C09/C11 refinements).
      - signing through all three entry points for every accepted private key and every behaviour
-       of the caller's generator (from the C03 refinement; loop budget fuel * l < 65536, see C03).  Everything is in addition
+       of the caller's generator and EVERY loop budget: after the repair of finding F4 (commit acb1d71 in
+       /repo) the rejection loop answers Err before the 16-bit counter kappa can overflow; before it, a
+       hostile accepted key made the checked build panic and the release build loop for ever.  Everything is in addition
    decided by the hostile-input streams of tools/streams.py on the checked build. *)
 Require Import List ZArith Lia. Import ListNotations.
 Require Import F204.Base.Util F204.Base.Mach F204.Gen.Params F204.Gen.Guards F204.Hash.HashIface F204.Impl.Helpers F204.Impl.HighLow
@@ -93,31 +95,15 @@ Qed.
    caller's generator (right-sized reply, wrong-sized reply, failure, exhausted script) *)
 Lemma res_sign_no_panic r : is_panic (res_sign r) = false.
 Proof. destruct r; reflexivity. Qed.
-Theorem C13_sign_no_panic : forall H, HashLaws H -> forall P, In P all_params -> forall fuel, Z.of_nat fuel * Encodings.lz P < 65536 ->
+Theorem C13_sign_no_panic : forall H, HashLaws H -> forall P, In P all_params -> forall fuel,
   forall skb sk, bytes_ok skb -> zlen skb = p_sk_len P -> sk_try_from_bytes P skb = Ok sk ->
   forall g M ctx ph rnd,
     is_panic (fst (try_sign_with_rng H fuel P sk g M ctx)) = false /\
     is_panic (fst (try_hash_sign_with_rng H fuel P sk g M ctx ph)) = false /\
     is_panic (internal_sign H fuel P sk M ctx rnd) = false.
 Proof.
-  intros H HL P HP fuel Hf skb sk Hb Hl Hsk g M ctx ph rnd. split; [|split].
-  - destruct g as [|[b|pp] g].
-    + unfold try_sign_with_rng, MlDsa.try_fill. destruct (negb _); reflexivity.
-    + destruct (Z.eq_dec (zlen b) 32) as [E|E].
-      * rewrite (try_sign_refines H HL P HP fuel Hf skb sk Hb Hl Hsk b g M ctx E). apply res_sign_no_panic.
-      * unfold try_sign_with_rng, MlDsa.try_fill. destruct (negb _); [reflexivity|]. change rnd_len_try_sign_with_rng with 32.
-        replace (zlen b =? 32) with false by (symmetry; apply Z.eqb_neq; exact E). reflexivity.
-    + unfold try_sign_with_rng, MlDsa.try_fill. destruct (negb _); reflexivity.
-  - destruct g as [|[b|pp] g].
-    + unfold try_hash_sign_with_rng, MlDsa.try_fill. destruct (negb _); reflexivity.
-    + destruct (Z.eq_dec (zlen b) 32) as [E|E].
-      * rewrite (try_hash_sign_refines H HL P HP fuel Hf skb sk Hb Hl Hsk b g M ctx ph E). apply res_sign_no_panic.
-      * unfold try_hash_sign_with_rng, MlDsa.try_fill. destruct (negb _); [reflexivity|]. change rnd_len_try_hash_sign_with_rng with 32.
-        replace (zlen b =? 32) with false by (symmetry; apply Z.eqb_neq; exact E). reflexivity.
-    + unfold try_hash_sign_with_rng, MlDsa.try_fill. destruct (negb _); reflexivity.
-  - destruct (Z_le_gt_dec (zlen ctx) 255) as [Hc|Hc].
-    + rewrite (internal_sign_refines H HL P HP fuel Hf skb sk Hb Hl Hsk rnd M ctx Hc). apply res_fuel_no_panic.
-    + unfold internal_sign. change ctx_max_internal_sign with 255. replace (zlen ctx <=? 255) with false by (symmetry; apply Z.leb_gt; lia). reflexivity.
+  intros H HL P HP fuel skb sk Hb Hl Hsk g M ctx ph rnd.
+  exact (sign_api_no_panic H HL P HP fuel skb sk g M ctx ph rnd Hb Hl Hsk).
 Qed.
 
 Print Assumptions C13_sign_no_panic.
